@@ -18,6 +18,7 @@ _prelude.declare_fun('sc_faithful', [t.INT], t.BOOL)
 _prelude.declare_fun('sc_posindep', [t.INT], t.BOOL)
 FAITHFUL = {'Const': ('subcon',)}     # sub-construct fields assumed value-faithful (stated in the evidence as a hypothesis)
 HINTS = {}          # class name -> function(eng, st, selfv, args) adding lemma instances
+POST_HINTS = {}     # class name -> function(obligation) -> instances of proved lemmas on the applications occurring in the obligation
 
 
 def load_programs():
@@ -51,6 +52,8 @@ def run(src, program, cls, tags, variant=None, domain=None):
             st.env[n] = iface.new_context(eng, st, 'context')
         elif n == 'path':
             st.env[n] = VStr(fresh('path', t.STR))
+        elif n == 'j':
+            st.env[n] = VInt(fresh('j', t.INT))       # an arbitrary index
         elif n in ('tail', 'data0'):
             st.env[n] = eng.fresh_bytes(st, n)
         else:
@@ -88,6 +91,8 @@ def run(src, program, cls, tags, variant=None, domain=None):
             ob.tags = tuple(tags)
         ob.canonical_traits = (program == 'canonical')
         ob.hyps = list(ob.hyps) + trait_instances(ob)
+        if cls in POST_HINTS:
+            ob.hyps = list(ob.hyps) + POST_HINTS[cls](ob)
     return eng.obls, None, len(finals)
 
 
@@ -113,6 +118,32 @@ def has_bound_var(x):
     return '!|' in x.smt() and any(v.endswith('!') for v in x.free_vars())
 
 
+def same_sc(a, b):
+    """premise under which two sub-construct terms denote the same sub-construct: TRUE when they are the same term, None (no
+    instance) when both are distinct plain symbols, otherwise their equality (e.g. the case a Switch selects in two heaps)"""
+    if a.smt() == b.smt():
+        return t.TRUE
+    if a.op == 'var' and b.op == 'var':
+        return None
+    return t.eq(a, b)
+
+
+def rt_instance(b, p, eqsc=None):
+    """round-trip trait of one sub-construct on one pair of applications: build b = B_ok(sc,obj,pabs,H,D,c) succeeded and the
+    bytes it produced stand at the parse position of p = P_ok(sc,buf,len,pos,base,H',D',c)  =>  the parse succeeds, returns a
+    value equal to what build returned and ends right after those bytes"""
+    i = t.var('rt!', t.INT)
+    sc, obj, pabs, Hb, Db, cb = b.args
+    n = t.app('B_len', t.INT, *b.args)
+    W = t.app('B_bytes', t.ARR, *b.args)
+    ret = t.app('B_ret', t.VAL, *b.args)
+    _, buf, ln, pos, base, H, D, c = p.args
+    same = t.forall([i], t.implies(t.and_(t.le(pos, i), t.lt(i, t.add(pos, n))), t.eq(t.select(buf, i), t.select(W, t.sub(i, pos)))),
+                    pats=[[t.select(buf, i)]])
+    concl = t.and_(p, t.app('pyeq', t.BOOL, t.app('P_val', t.VAL, *p.args), ret), t.eq(t.app('P_end', t.INT, *p.args), t.add(pos, n)))
+    return t.implies(t.and_(eqsc if eqsc is not None else t.TRUE, b, t.or_(t.eq(pabs, t.add(base, pos)), t.app('sc_posindep', t.BOOL, sc)), same, t.le(t.add(pos, n), ln)), concl)
+
+
 def trait_instances(ob):
     """Induction hypotheses about sub-constructs, instantiated on the interface-function applications that occur in the
     obligation (ground facts, never quantified axioms):
@@ -132,16 +163,13 @@ def trait_instances(ob):
         # value-faithful sub-constructs (declared per field: length fields, the field under a Const): build returns its argument
         out.append(t.implies(t.and_(b, t.app('sc_faithful', t.BOOL, sc)), t.eq(ret, obj)))
         for p in apps['P_ok'].values():
-            if has_bound_var(p) or p.args[0].smt() != sc.smt():
+            if has_bound_var(p) or same_sc(p.args[0], sc) is None:
                 continue
-            _, buf, ln, pos, base, H, D, c = p.args
-            same = t.forall([i], t.implies(t.and_(t.le(pos, i), t.lt(i, t.add(pos, n))), t.eq(t.select(buf, i), t.select(W, t.sub(i, pos)))),
-                            pats=[[t.select(buf, i)]])
-            concl = t.and_(p, t.app('pyeq', t.BOOL, t.app('P_val', t.VAL, *p.args), ret), t.eq(t.app('P_end', t.INT, *p.args), t.add(pos, n)))
-            out.append(t.implies(t.and_(b, t.or_(t.eq(pabs, t.add(base, pos)), t.app('sc_posindep', t.BOOL, sc)), same, t.le(t.add(pos, n), ln)), concl))
+            eqsc = same_sc(p.args[0], sc)
+            out.append(rt_instance(b, p, eqsc))
         for z in apps['Z_ok'].values():
-            if not has_bound_var(z) and z.args[0].smt() == sc.smt():
-                out.append(t.implies(t.and_(z, b), t.eq(n, t.app('Z_val', t.INT, *z.args))))
+            if not has_bound_var(z) and same_sc(z.args[0], sc) is not None:
+                out.append(t.implies(t.and_(same_sc(z.args[0], sc), z, b), t.eq(n, t.app('Z_val', t.INT, *z.args))))
     if getattr(ob, 'canonical_traits', False):
         # induction hypotheses of C02 about sub-constructs (only for the canonical programs):
         #   closure    a value a sub-construct parsed is accepted by its build, which returns an equal value
@@ -150,49 +178,49 @@ def trait_instances(ob):
         ps_ = [p for p in apps['P_ok'].values() if not has_bound_var(p)]
         for b in bs:
             for p in ps_:
-                if p.args[0].smt() != b.args[0].smt():
+                if same_sc(p.args[0], b.args[0]) is None:
                     continue
                 pv = t.app('P_val', t.VAL, *p.args)
                 used = t.sub(t.app('P_end', t.INT, *p.args), p.args[3])
-                out.append(t.implies(t.and_(p, t.or_(t.eq(b.args[1], pv), t.app('pyeq', t.BOOL, b.args[1], pv))),
+                out.append(t.implies(t.and_(same_sc(p.args[0], b.args[0]), p, t.or_(t.eq(b.args[1], pv), t.app('pyeq', t.BOOL, b.args[1], pv))),
                                      t.and_(b, t.app('pyeq', t.BOOL, t.app('B_ret', t.VAL, *b.args), b.args[1]), t.le(t.app('B_len', t.INT, *b.args), used))))
         # length / count fields (value-faithful integer fields): the field that encoded the parsed length n also encodes every
         # smaller non-negative length, in no more bytes (downward closed and monotone - true of every integer wire format)
         for b in bs:
             for p in ps_:
-                if p.args[0].smt() != b.args[0].smt():
+                if same_sc(p.args[0], b.args[0]) is None:
                     continue
                 pv = t.app('P_val', t.VAL, *p.args)
                 b2 = t.app('B_ok', t.BOOL, b.args[0], pv, *b.args[2:])
                 n2 = t.app('B_len', t.INT, b.args[0], pv, *b.args[2:])
                 small = t.and_(t.app('isint', t.BOOL, b.args[1]), t.app('isint', t.BOOL, pv), t.le(t.ZERO, t.app('toint', t.INT, b.args[1])),
                                t.le(t.app('toint', t.INT, b.args[1]), t.app('toint', t.INT, pv)))
-                out.append(t.implies(t.and_(t.app('sc_faithful', t.BOOL, b.args[0]), p),
+                out.append(t.implies(t.and_(same_sc(p.args[0], b.args[0]), t.app('sc_faithful', t.BOOL, b.args[0]), p),
                                      t.and_(b2, t.app('isint', t.BOOL, pv), t.le(n2, t.sub(t.app('P_end', t.INT, *p.args), p.args[3])),
                                             t.implies(small, t.and_(b, t.le(t.app('B_len', t.INT, *b.args), n2))))))
         for x in range(len(bs)):
             for y in range(x + 1, len(bs)):
                 b1, b2 = bs[x], bs[y]
-                if b1.args[0].smt() != b2.args[0].smt():
+                if same_sc(b1.args[0], b2.args[0]) is None:
                     continue
                 n1, n2 = t.app('B_len', t.INT, *b1.args), t.app('B_len', t.INT, *b2.args)
                 W1, W2 = t.app('B_bytes', t.ARR, *b1.args), t.app('B_bytes', t.ARR, *b2.args)
                 same = t.forall([i], t.implies(t.and_(t.le(t.ZERO, i), t.lt(i, n1)), t.eq(t.select(W1, i), t.select(W2, i))), pats=[[t.select(W1, i)], [t.select(W2, i)]])
-                out.append(t.implies(t.or_(t.eq(b1.args[1], b2.args[1]), t.app('pyeq', t.BOOL, b1.args[1], b2.args[1])),
+                out.append(t.implies(t.and_(same_sc(b1.args[0], b2.args[0]), t.or_(t.eq(b1.args[1], b2.args[1]), t.app('pyeq', t.BOOL, b1.args[1], b2.args[1]))),
                                      t.and_(t.eq(b1, b2), t.implies(b1, t.and_(t.eq(n1, n2), same, t.app('pyeq', t.BOOL, t.app('B_ret', t.VAL, *b1.args), t.app('B_ret', t.VAL, *b2.args)))))))
     zs = [z for z in apps['Z_ok'].values() if not has_bound_var(z)]
     for a in zs:
         for b2 in zs:
-            if a is not b2 and a.args[0].smt() == b2.args[0].smt() and a.smt() < b2.smt():
+            if a is not b2 and same_sc(a.args[0], b2.args[0]) is not None and a.smt() < b2.smt():
                 # context agreement: the size of a sub-construct does not depend on what its siblings did to the context
-                out.append(t.and_(t.eq(a, b2), t.eq(t.app('Z_val', t.INT, *a.args), t.app('Z_val', t.INT, *b2.args))))
+                out.append(t.implies(same_sc(a.args[0], b2.args[0]), t.and_(t.eq(a, b2), t.eq(t.app('Z_val', t.INT, *a.args), t.app('Z_val', t.INT, *b2.args)))))
     for z in apps['Z_ok'].values():
         if has_bound_var(z):
             continue
         out.append(t.implies(z, t.ge(t.app('Z_val', t.INT, *z.args), t.ZERO)))
         for p in apps['P_ok'].values():
-            if not has_bound_var(p) and p.args[0].smt() == z.args[0].smt():
-                out.append(t.implies(t.and_(z, p), t.eq(t.sub(t.app('P_end', t.INT, *p.args), p.args[3]), t.app('Z_val', t.INT, *z.args))))
+            if not has_bound_var(p) and same_sc(p.args[0], z.args[0]) is not None:
+                out.append(t.implies(t.and_(same_sc(p.args[0], z.args[0]), z, p), t.eq(t.sub(t.app('P_end', t.INT, *p.args), p.args[3]), t.app('Z_val', t.INT, *z.args))))
     # a successful sequential parse ends between its start and the end of the data it was given
     for p in apps['P_ok'].values():
         if not has_bound_var(p):
